@@ -325,6 +325,42 @@ GOLDEN["golden_coverage.json"] = (COVERAGE_SPEC, [
 ])
 
 
+def extract_armexpr(facts, fn):
+    """arm -> [canonical S-expression of the arm's value] (for functional tables such as free-variable equations)"""
+    h = facts.hir(fn)
+    if h is None:
+        return None
+    m = A.find_match_on(h["body"], lambda n: True)
+    if m is None:
+        return None
+    table = {}
+    for a in m["arms"]:
+        env = A.ArmEnv()
+        env.strip = True
+        env.bind_params(h)
+        env.bind_pat(A.strip_or(a["pat"]))
+        env.absorb(a["body"])
+        s = A.sexpr(a["body"], env)
+        if a.get("guard") is not None:
+            s = "(guard %s) %s" % (A.sexpr(a["guard"], env), s)
+        table[_fresh_key(table, A.pat_shape(a["pat"]))] = {"events": [s], "ln": a["ln"]}
+    return table
+
+
+_SV = "zydeco_stackir::sps::variables::"
+_LV = "zydeco_stackir::sps_low::variables::"
+GOLDEN["golden_freevars.json"] = ({}, [
+    ("sps Vars for VPatId", "<zydeco_stackir::syntax::VPatId as %sVars>::vars" % _SV, "armexpr"),
+    ("sps FreeVars for ValueId", "<zydeco_stackir::syntax::ValueId as %sFreeVars>::free_vars" % _SV, "armexpr"),
+    ("sps FreeVars for StackId", "<zydeco_stackir::syntax::StackId as %sFreeVars>::free_vars" % _SV, "armexpr"),
+    ("sps FreeVars for CompuId", "<zydeco_stackir::syntax::CompuId as %sFreeVars>::free_vars" % _SV, "armexpr"),
+    ("sps_low Vars for VPatId", "<zydeco_stackir::sps_low::syntax::VPatId as %sVars>::vars" % _LV, "armexpr"),
+    ("sps_low FreeVars for ValueId", "<zydeco_stackir::sps_low::syntax::ValueId as %sFreeVars>::free_vars" % _LV, "armexpr"),
+    ("sps_low FreeVars for StackId", "<zydeco_stackir::sps_low::syntax::StackId as %sFreeVars>::free_vars" % _LV, "armexpr"),
+    ("sps_low FreeVars for CompuId", "<zydeco_stackir::sps_low::syntax::CompuId as %sFreeVars>::free_vars" % _LV, "armexpr"),
+])
+
+
 def compute(facts, fname):
     spec, fns = GOLDEN[fname]
     out = {}
@@ -333,6 +369,8 @@ def compute(facts, fname):
             t = extract_seq(facts, fn, spec)
         elif mode == "seqwhole":
             t = extract_seq_whole(facts, fn, spec)
+        elif mode == "armexpr":
+            t = extract_armexpr(facts, fn)
         else:
             t = extract(facts, fn, spec) if mode == "match" else extract_whole(facts, fn, spec)
         out[label] = {"fn": fn, "arms": None if t is None else {k: v["events"] for k, v in t.items()},
